@@ -8,7 +8,7 @@ const TAGS = {
 };
 const ATTR_NAMES = ['{...x}', 'p', 'ns:name', 'v-foo', 'vFoo', 'v-foo:arg_mod', 'v-foo_a-b', 'v-', 'v-_lazy', 'v-\u00e9t\u00e9', 'v\u00c9', 'v--x', 'v-model', 'v-model:a', 'v-model_m', 'v-models', 'v-slots', 'v-html', 'v-text', 'v-show', 'on', 'class', 'key', 'ref'];
 const ATTR_VALUES = {
-  absent: '', str: '="s"', strEmpty: '=""', x: '={x}', arrEmpty: '={[]}', arrHole: '={[,]}', arrHole2: '={[, x]}', arr1: '={[x]}', arrSpread: '={[...x]}', arrArg: "={[x, 'a']}",
+  absent: '', str: '="s"', strEmpty: '=""', strNL: '="a\n  b"', strBsl: '="a\\b\\"', strSq: "='a\"b'", x: '={x}', arrEmpty: '={[]}', arrHole: '={[,]}', arrHole2: '={[, x]}', arr1: '={[x]}', arrSpread: '={[...x]}', arrArg: "={[x, 'a']}",
   arrMods: "={[x, ['m']]}", arrOdd: "={[x, y, ['a-b', 'c d', '1x']]}", arr2d: "={[[x], [y, 'n']]}", arr2dOdd: '={[[], [, x], x, [...x]]}', arrModsOdd: '={[x, [y, ...x, 1]]}',
   member: '={a.b}', index: '={a[0]}', optchain: '={a?.b}', optindex: '={a?.[0]}', optcall: '={a?.()}', call: '={a()}', paren: '={(x)}', thisMember: '={this.x}', assignExpr: '={x = y}',
   el: '=<b/>', frag: '=<></>', elNested: '=<b v-html=<i/> />', obj: '={{ a: x }}', fn: '={() => x}', num: '={1}', tplStr: '={`a${x}`}',
